@@ -10,7 +10,8 @@ from ..sim import srv as S
 from .srvfam import gen_resp, get_loop
 
 REQS = [b"gemini://localhost/x\r\n", b"gemini://localhost/a/b?q=1\r\n", b"titan://localhost/f;size=3\r\nabc", b"titan://localhost/f;size=0\r\n",
-        b"titan://localhost/f;size=20000\r\n" + b"q" * 20000, b"http://localhost/\r\n", b"gemini://localhost/" + b"p" * 1100 + b"\r\n", b"\xff\xfe\r\n"]
+        b"titan://localhost/f;size=20000\r\n" + b"q" * 20000, b"titan://localhost/f;size=100000\r\n" + b"Q" * 100000, b"gemini://localhost/x\r\n" + b"S" * 100000,
+        b"http://localhost/\r\n", b"gemini://localhost/" + b"p" * 1100 + b"\r\n", b"\xff\xfe\r\n"]
 
 
 def split_records(rng, data: bytes, maxparts=4):
